@@ -7,15 +7,18 @@ import itertools, os, tempfile, random
 
 
 # ------------------------------------------------------------------ instances
-def gen_instance(rng, nS, nP, nL, na=3, twopl=True, ties=True, maxlen=3, maxq=2, lq=True, zero=False):
+def gen_instance(rng, nS, nP, nL, na=3, twopl=True, ties=True, maxlen=3, maxq=2, lq=True, zero=False, unranked=False):
+    """unranked: one project that nobody ranks keeps a lower quota of 1 (a legal file; infeasible unless the project may close)."""
     I = dict(na=na, nS=nS, nP=nP, twopl=twopl)
+    skip = rng.randint(1, nP) if (unranked and nP >= 2) else None
     if na == 2: nL = nP
     I['nL'] = nL
     I['lect'] = list(range(1, nP + 1)) if na == 2 else [rng.randint(1, nL) for _ in range(nP)]
     rows = []
     for i in range(nS):
-        L = rng.randint(0 if rng.random() < 0.1 else 1, min(maxlen, nP))
-        projs = rng.sample(range(1, nP + 1), L)
+        cand = [x for x in range(1, nP + 1) if x != skip]
+        L = rng.randint(0 if rng.random() < 0.1 else 1, min(maxlen, len(cand)))
+        projs = rng.sample(cand, L)
         tie = [int(ties and rng.random() < 0.4) for _ in range(L)]
         rows.append([projs, tie])
     I['rows'] = rows
@@ -23,6 +26,7 @@ def gen_instance(rng, nS, nP, nL, na=3, twopl=True, ties=True, maxlen=3, maxq=2,
     I['puq'] = [rng.randint(lo, maxq) for _ in range(nP)]
     I['plq'] = [(rng.randint(0, 1) if (lq and rng.random() < 0.3) else 0) for _ in range(nP)]
     I['plq'] = [min(a, b) for a, b in zip(I['plq'], I['puq'])]
+    if skip is not None: I['puq'][skip - 1] = max(1, I['puq'][skip - 1]); I['plq'][skip - 1] = 1
     if na == 2:
         I['luq'] = list(I['puq']); I['tgt'] = list(I['puq']); I['llq'] = list(I['plq'])
     else:
